@@ -37,7 +37,9 @@ var verifMenuIncRun = []int{tGet, tPost, tPathDir, tResp200, tRespRef, tRequestO
 // children (or complete top-level directives) that occurs at two places of a
 // document may be moved into one file and replaced by an INCLUDE of that file at
 // both places: verdict and catalog stay the same. The document is
-//   JSIGHT, P1, R, P2, R      (P1, P2: URL /x/{id} | URL /x | GET /x; R: 1..KR lines)
+//
+//	JSIGHT, P1, R, P2, R      (P1, P2: URL /x/{id} | URL /x | GET /x; R: 1..KR lines)
+//
 // and the split form is  JSIGHT, P1, INCLUDE inc.jst, P2, INCLUDE inc.jst.
 func VerifH_IncludeEquivalence() {
 	verifLetters = 2
